@@ -32,8 +32,9 @@ def run(ctx):
         ["the image is produced by the harness (go/harness/fsck.go): a read-only walk of inode table, indirect blocks and directory blocks through obj.Log.Load, decoded by inode.Decode and dir.decodeDirEnt",
          "the layout functions are the ones regenerated from super/super.go; the set of blocks marked by formatting is a closed form proved equal to the format model of C15 (metaBlock_is_format_model)",
          "in images of concurrent histories every directory counts as possibly moved once a cross-directory RENAME succeeded (loosens only the '..' clause there)"],
-        pending=["the bridge from states of the block-level models (M7 pointer tree, M7d bytes / many files, M7e directory slots, M7i inode table) to the IMAGES the checker reads: "
-                 "each layer is proved on its own representation (bmap_ok, shrinkTo_ok, InoOK; block_level_file_refines_the_content_log; directory_blocks_refine_the_slot_list; "
-                 "writing_one_inode_changes_no_other, inode_slots_do_not_overlap), the composition into one disk image is not"],
+        pending=["the bridge from states of the block-level models to the IMAGES the checker reads is proved for OWNERSHIP (checker_ownership_is_the_pointer_tree: Fsck.owned on an image "
+                 "= the non-null pointers of the model's tree, position by position; checker_one_owner_on_every_reachable_image: the image of every state reachable by mappings, truncations and "
+                 "reuse on any files passes chkOneOwner); the other clauses of the checker (bitmap = metadata + owned, sizes, directory slots, inode table) are proved layer by layer on their own "
+                 "representations (allocator_is_disk_plus_open_allocations, InoOK, directory_blocks_refine_the_slot_list, writing_one_inode_changes_no_other), not yet composed into the image"],
 
         partial=["for all histories / crash points: sampled, not proved"])
